@@ -294,7 +294,7 @@ fn ladder_doc(family: &str, n: u64) -> Option<(String, u64)> {
 /// failing rung is the witness; higher rungs of a monotone ladder add nothing but waiting time).
 fn ladder_cases(tier: Tier) -> Vec<Case> {
     let mut v = Vec::new();
-    let max_work: u64 = tier.pick(300_000, 5_000_000);
+    let max_work: u64 = tier.pick(100_000, 5_000_000);
     for f in LADDERS {
         for (li, cfg) in [Cfg::plain(), small_limits(), Cfg { loop_limit: 1, var_limit: 1, depth_limit: 1, ..Cfg::plain() }].into_iter().enumerate() {
             for n in rungs(tier) {
@@ -303,7 +303,7 @@ fn ladder_cases(tier: Tier) -> Vec<Case> {
                 }
                 if let Some((doc, work)) = ladder_doc(f, n) {
                     if work > max_work {
-                        continue; // the watchdog is not scaled with requested work; stay well inside it
+                        continue; // keeps the tier's wall time bounded; the ladder watchdog below scales with requested work
                     }
                     v.push(Case { doc: doc.into_bytes(), cfg: cfg.clone(), work: Some(work), label: format!("{f}/{n}/limits{li}"), expr_direct: false });
                 }
@@ -782,7 +782,7 @@ pub fn run(tier: Tier) -> i32 {
     let mut rep = Report::new("C01", tier, "exploration");
     rep.set("rule", json!(format!("(1) all strings of <= {} XML tokens from a {}-token alphabet (tags of every element family, attribute openers, quotes, comment/CDATA/PI delimiters, entities, a raw 0xFF byte) under 2 configurations; (2) all strings of <= {} tokens of the expression alphabet ({} tokens) through the attribute evaluator and <= {} inside carrier documents; <= {} tokens of the path alphabet ({}); <= {} tokens of the relspec alphabet ({}) in each of {} attribute carriers (every attribute the code parses by hand); (3) {} shape ladders (expression nesting, XML nesting per container kind, sibling/attribute/text/path/points/transform lengths, reuse/use/variable/^ chains, forward-reference chains, loops, growth, comments/CDATA/entities, class/surround/connector counts, unclosed and repeated roots) with rungs 1,2,4..2^{} under default, small and minimal limits. Every case runs in a sandboxed worker subprocess on a 2 MiB-stack thread: a panic (reported with its location), death by signal, a stall beyond the watchdog, or element evaluations above 8 x (requested work + 8) is a violation; a dying worker's window is re-run case by case to pin the input. (4) 30 outcome-class representatives and deep ladder rungs through the svgdx command (stdin->stdout and file->file: exit status 0/1, message on failure, no signal, within the watchdog) and through a live svgdx-server (status 200/400, server still answers afterwards). (5) for 40 documents every position at which the writer fails and reads delivered in chunks of 1/2/7 bytes. Non-trivial counts distinct cases that ran to a verdict.", tier.pick(4, 5), XML_TOKENS.len(), tier.pick(4, 5), EXPR_TOKENS.len(), tier.pick(3, 4), tier.pick(4, 5), PATH_TOKENS.len(), tier.pick(3, 4), REL_TOKENS.len(), CARRIERS.len(), LADDERS.len(), tier.pick(12, 17))));
     let machinery: Mutex<Vec<String>> = Mutex::new(Vec::new());
-    let stall = Duration::from_secs(tier.pick(6, 20));
+    let stall = Duration::from_secs(tier.pick(10, 30));
     let evaluated = AtomicU64::new(0);
 
     // ---- token spaces, split into chunks and run 16 at a time
@@ -816,6 +816,10 @@ pub fn run(tier: Tier) -> i32 {
         use rayon::prelude::*;
         lchunks.par_iter().for_each(|(start, n)| {
             // one worker per ladder; it is abandoned at its first abort / hang
+            // the watchdog allows 120 us per unit of REQUESTED work (measured: ~17 us per element, linear)
+            // on top of the base, so a large but proportional document is never reported as a hang
+            let maxwork = ladders[*start..*start + *n].iter().filter_map(|c| c.work).max().unwrap_or(0);
+            let stall = stall + Duration::from_micros(maxwork * 120);
             let r = run_range(tier, "ladder", *start, *n, true, stall);
             if r.died.is_some() && r.last_started.is_none() {
                 machinery.lock().unwrap().push(format!("ladder worker for cases {start}.. died before starting: {:?}", r.died));
@@ -840,7 +844,7 @@ pub fn run(tier: Tier) -> i32 {
             Event::Panic { idx, msg } => (*idx, "panic", format!("panic at {msg}")),
             Event::Work { idx, evals, work } => (*idx, "work-not-proportional", format!("{evals} element evaluations for requested work {work} (bound 8 x (work + 8) = {})", 8 * (work + 8))),
             Event::Abort { idx, how } => (*idx, "abort", format!("the worker process died: {how}")),
-            Event::Hang { idx, secs } => (*idx, "hang", format!("no result after {secs:.1}s (watchdog {}s)", stall.as_secs())),
+            Event::Hang { idx, secs } => (*idx, "hang", format!("no result after {secs:.1}s (watchdog {}s + 120us per unit of requested work)", stall.as_secs())),
         };
         let (fam, case, shown) = describe(space, idx, tier, &ladders);
         let sig = match e {
@@ -869,7 +873,7 @@ pub fn run(tier: Tier) -> i32 {
         use rayon::prelude::*;
         docs.par_iter().enumerate().for_each(|(k, (name, doc))| {
             for file_mode in [false, true] {
-                let r = run_cli(SVGDX_BIN, doc, file_mode, stall.as_secs(), &tmp, k);
+                let r = run_cli(SVGDX_BIN, doc, file_mode, stall.as_secs() * 5, &tmp, k);
                 fe_runs.fetch_add(1, Ordering::Relaxed);
                 // the library verdict comes from a fresh sandboxed process too (2 MiB stack thread)
                 let lib = crate::props::c06::fresh_process(doc, &Cfg::default());
@@ -907,7 +911,7 @@ pub fn run(tier: Tier) -> i32 {
         Err(e) => machinery.lock().unwrap().push(e),
         Ok(mut srv) => {
             for (name, doc) in &docs {
-                let r = http_post(srv.port, "/api/transform", doc, stall.as_secs());
+                let r = http_post(srv.port, "/api/transform", doc, stall.as_secs() * 5);
                 fe_runs.fetch_add(1, Ordering::Relaxed);
                 let mk = |clause: &str, detail: String| Violation {
                     clause: clause.into(),
@@ -924,7 +928,7 @@ pub fn run(tier: Tier) -> i32 {
                     }
                 }
                 // liveness probe
-                let alive = srv.alive() && http_post(srv.port, "/api/transform", b"<rect wh=\"1\"/>", 5).map(|r| r.0 == 200).unwrap_or(false);
+                let alive = srv.alive() && http_post(srv.port, "/api/transform", b"<rect wh=\"1\"/>", 30).map(|r| r.0 == 200).unwrap_or(false);
                 if !alive {
                     fe.lock().unwrap().push(mk("server-dead-after-request", "the server no longer answers".into()));
                     break;
